@@ -21,6 +21,8 @@
                              a failure in between leaves an index entry nobody can ever remove.
               estop = true : in lookupMapping a failed repository read (storage error) ends the lookup with that error; estop = false:
                              it falls through to the legacy registry / cloud control like "not found".
+              ucheck = true: UpdateMapping compares the payload's client_id with the stored one (immutable); ucheck = false: only the
+                             name fields are compared.
    `own` and `log` are ghost fields (never read by the step function's decisions).
    Definitions only. *)
 From TX Require Export Base.Threads.
@@ -124,7 +126,10 @@ Inductive op :=
 | OUpdate (k : nat) (st : status) (exp : Z) (tgt : N)
 | OLookup (host : name) (now : N)
 | OCleanup (now : N)                      (* CleanupExpiredMappings: an internal deleter acting with each expired mapping's own client id *)
-| OResetCounter.                          (* environment: the counter key disappears (24h TTL of memory.Storage.IncrBy, restart of a cache-only counter) *)
+| OResetCounter
+| OUpdateF (i : id) (vc : option client) (vn : option name) (st : status) (exp : Z) (tgt : N).
+    (* repository-level update with a forged payload: GetMapping(i), then UpdateMapping of that struct with the client id
+       (vc) and / or a name field (vn) replaced *)                          (* environment: the counter key disappears (24h TTL of memory.Storage.IncrBy, restart of a cache-only counter) *)
 
 Inductive rmkind := KRoll | KDel | KClean (rest : list (id * client)) (cnt : N).
 Inductive rmstage := RmGuard | RmGetIdx | RmDelIdx | RmDelRec | RmRelease.
@@ -142,11 +147,12 @@ Inductive pcT :=
 | PCDIdx (i : id) (n : name)                           (* pinned DeleteMapping: Delete index (unconditional) *)
 | PCDRec (i : id)
 | PCDList (i : id)
-| PCUSet (i : id) (n : name) (st : status) (exp : Z) (tgt : N)
+| PCUSet (i : id) (n : name) (who : client) (st : status) (exp : Z) (tgt : N)   (* who = the client id in the payload *)
 | PCLRec (h : name) (n : name) (i : id) (now : N)
 | PCClScan (now : N) (todo : list id) (acc : list (id * client))      (* ListAllMappings: GetMapping of the next listed id *)
 | PCClDGet (dels : list (id * client)) (cnt : N)                      (* DeleteMapping(id, snapshot's client): Get record *)
-| PCClDList (c : client) (i : id) (rest : list (id * client)) (cnt : N).
+| PCClDList (c : client) (i : id) (rest : list (id * client)) (cnt : N)
+| PCUFGet (i : id) (n : name) (c : client) (st : status) (exp : Z) (tgt : N).   (* forged payload built; UpdateMapping's Get pending *)
 
 Record thr := {
   cl : client;
@@ -245,6 +251,7 @@ Section D.
   Variable cfix : bool.                         (* the counter key is created without a deadline before Incr *)
   Variable ifirst : bool.                       (* removeMappingKeys deletes the index entry BEFORE the record (the code's order) *)
   Variable estop : bool.                        (* lookupMapping: a repository error other than MAPPING_NOT_FOUND ends the lookup (the code) *)
+  Variable ucheck : bool.                       (* UpdateMapping refuses a payload whose client_id differs from the stored one (the code) *)
   Variables reg cloud : name -> option pmap.    (* DomainRegistry / CloudControl contents (static environment) *)
 
   (* status checks shared by stages 2 and 3 of lookupMapping *)
@@ -331,7 +338,7 @@ Section D.
                  | Some m =>
                      if negb (name_eqb (r_name m) n && Z.eqb (r_client m) (cl t)) then (finish t fs (RErr EInvalidReq), ANone)
                      else if N.eqb tgt 0 then (finish t fs (RErr EValidation), ANone)
-                     else (goto t fs (PCUSet i n st exp tgt), ANone)
+                     else (goto t fs (PCUSet i n (cl t) st exp tgt), ANone)
                  end
         | OLookup h now :: _ =>
             let n := extractDomain h in
@@ -345,6 +352,14 @@ Section D.
             if f then (finish t fs (RErr EStorage), ANone)
             else (cl_scan_next t fs now (glist s) [], ANone)
         | OResetCounter :: _ => (finish t fs RReset, AReset)
+        | OUpdateF i vc vn st exp tgt :: _ =>
+            (* GetMapping(i): the caller's copy of the struct, with the forged field(s) *)
+            if f then (finish t fs (RErr EStorage), ANone)
+            else match recs s i with
+                 | None => (finish t fs (RErr ENotFound), ANone)
+                 | Some m => (goto t fs (PCUFGet i (match vn with Some n2 => n2 | None => r_name m end)
+                                                   (match vc with Some c2 => c2 | None => r_client m end) st exp tgt), ANone)
+                 end
         end
     | PCIncr sub base tgt => incr_step t fs f s sub base tgt
     | PCIncrW v sub base tgt =>
@@ -398,10 +413,10 @@ Section D.
     | PCDList i =>
         (* RemoveFromList; an error is ignored *)
         if f then (finish t fs RDeleted, AGRemove i) else (finish t fs RDeleted, ARemove (cl t) i)
-    | PCUSet i n st exp tgt =>
+    | PCUSet i n who st exp tgt =>
         if f then (finish t fs (RErr EStorage), ANone)
         else (finish t fs RUpdated,
-              AWrite i {| r_name := n; r_client := cl t; r_target := tgt; r_status := st; r_exp := exp |})
+              AWrite i {| r_name := n; r_client := who; r_target := tgt; r_status := st; r_exp := exp |})
     | PCLRec h n i now =>
         if f then (finish t fs (if estop then RErr EStorage else fallback h n now), ANone)
         else match recs s i with
@@ -436,6 +451,18 @@ Section D.
         end
     | PCClDList c i rest cnt =>
         if f then (cl_del t fs rest (cnt + 1), AGRemove i) else (cl_del t fs rest (cnt + 1), ARemove c i)
+    (* ---- UpdateMapping with a caller-built payload {id i, name n, client c} ---- *)
+    | PCUFGet i n c st exp tgt =>
+        if f then (finish t fs (RErr EStorage), ANone)
+        else match recs s i with
+             | None => (finish t fs (RErr ENotFound), ANone)
+             | Some m =>
+                 (* immutable fields: subdomain / base domain / full domain (one name here) and client_id *)
+                 if negb (name_eqb (r_name m) n && (if ucheck then Z.eqb (r_client m) c else true))
+                 then (finish t fs (RErr EInvalidReq), ANone)
+                 else if N.eqb tgt 0 || negb (Z.ltb 0 c) then (finish t fs (RErr EValidation), ANone)
+                 else (goto t fs (PCUSet i n c st exp tgt), ANone)
+             end
     end.
 
   Definition dstep (t : thr) (s : shared) : thr * shared :=
